@@ -26,9 +26,56 @@ def run(tier):
     v = C.Verdicts(PROP)
     for o in verdicts:
         v.report(CC.observation(o), replay=lambda o=o: CC.replay_body(o, ctx))
+    vec = vectors_stage(ctx, binary, v)
     rc = v.finish()
-    CC.write_codec_evidence(PROP, tier, ctx, totals, verdicts, v, time.time() - t0)
+    CC.write_codec_evidence(PROP, tier, ctx, totals, verdicts, v, time.time() - t0, extra_cov={"corpus_vectors": vec})
     return rc
+
+
+def vectors_stage(ctx, binary, v):
+    """Implementation -> specification for inputs the model did not choose: every `test` vector of the
+    corpus must be accepted by the definition's decoder (spec/TraceVectors.tla, POSTCONDITION all
+    vectors consumed) and by the real code (decode, variant, exact consumption, re-encode)."""
+    from tools import vectors
+    vecs = vectors.corpus_vectors(ctx["corpus"])
+    path = os.path.join(ctx["outdir"], "vectors.ndjson")
+    with open(path, "w") as f:
+        for x in vecs:
+            f.write(json.dumps({k: x[k] for k in ("vid", "name", "exp", "lv", "dir", "frame")}) + "\n")
+    ldir = ctx["ldir"]
+    env = {"WOWM_OBJECTS": ldir + "/objects.ndjson", "WOWM_BLOCKS": ldir + "/blocks.ndjson",
+           "WOWM_INDEX": ldir + "/index.json", "WOWM_NSHARDS": 1, "WOWM_SHARD": 0, "WOWM_NPROF": 1,
+           "WOWM_MAXLEN": 2, "WOWM_ONLY": "", "WOWM_DEEP": "0", "WOWM_FAULTS": "0", "WOWM_FAULT_EVERY": 1,
+           "WOWM_CONST": wire.EMPTY_LIST, "WOWM_VECTORS": path}
+    res = C.run_tlc("TraceVectors", workers=1, timeout=600, env=env, name="c01-vectors", coverage=False)
+    byid = {x["vid"]: x for x in vecs}
+    status = collections.Counter()
+    accepted = []
+    for r in res.replay:
+        if r.get("kind") != "vector":
+            continue
+        st = r["status"]
+        if st == "rejected" and "not inflatable" in r.get("why", ""):
+            st = "skipped"
+        status[st] += 1
+        x = byid[r["vid"]]
+        if st == "accepted":
+            accepted.append(x)
+        elif st != "skipped":
+            v.report({"name": r["name"], "exp": r["exp"], "lv": r["lv"], "dir": r["dir"], "verdict": "vector_" + st,
+                      "sig": r.get("why", "")}, replay={"vector": x, "model": r})
+    if len(res.replay) != len(vecs):
+        raise C.ToolError("TraceVectors judged %d of %d vectors" % (len(res.replay), len(vecs)))
+    lines = [json.dumps({"kind": "codec", "id": 0, "name": x["name"], "exp": x["exp"], "lv": x["lv"], "dir": x["dir"],
+                         "prof": x["vid"], "hdr": x["frame"], "body": [], "regions": [], "msgcomp": False})
+             for x in accepted]
+    verdicts, totals = R.run_records(binary, ["codec"], lines, jobs=4)
+    for o in verdicts:
+        ob = CC.observation(o)
+        ob["source"] = "corpus_vector"
+        v.report(ob, replay={"verdict": o})
+    return {"vectors": len(vecs), "model_status": dict(status), "executed_on_real_code": totals["records"],
+            "real_code_non_ok": len(verdicts), "tlc_states": res.distinct}
 
 
 def replay(path):
